@@ -110,7 +110,7 @@ def _build_bv(tu, unit, workdir, contract_override=None):
         bodies += [q for q, f_ in sorted(tu.by_qname.items()) if q.startswith(pref) and f_.body is not None and q not in bodies]
     callee_contracts = {q: contracts[q] for q in unit.replace}
     src, em = cxx2c.build_unit(tu, workdir, bodies, contracts=callee_contracts, loop_contracts=unit.loop_contracts,
-                               spec_prelude=bvspec.prelude() + unit.spec_prelude, ghost=unit.ghost, stubs=getattr(unit, "stubs", None))
+                               spec_prelude=bvspec.prelude() + unit.spec_prelude, ghost=unit.ghost, stubs=getattr(unit, "stubs", None), defines=getattr(unit, "defines_text", ""))
     wname, wtext = witness_wrapper(em, f, tgt_contract, getattr(unit, "harness_pre", ""))
     src += "\n/* ---- contract carrier + harness (generated) ---- */\n" + wtext
     # every function that is called but neither inlined nor replaced is an extraction error
